@@ -546,28 +546,73 @@ func (wg *WeightedAuthorizationModelGraph) calculateNodeWeightWithMaxStrategy(no
 // For all
 func (wg *WeightedAuthorizationModelGraph) calculateNodeWeightWithMixedStrategy(nodeID string) error {
 	node := wg.nodes[nodeID]
-	weights := make(map[string]int)
 	edges := wg.edges[nodeID]
 
 	if len(edges) == 0 && node.nodeType != SpecificType && node.nodeType != SpecificTypeWildcard {
 		return fmt.Errorf("%w: %s node does not have any terminal type to reach to", ErrInvalidModel, node.uniqueLabel)
 	}
 
-	for idx, edge := range edges {
-		for key, value := range edge.weights {
-			if _, ok := weights[key]; !ok {
-				if idx != len(edges)-1 {
-					// This is the A edge.  We take the max weight of all key
-					weights[key] = value
-				} // otherwise, B edge requires weight to be present in A. Otherwise, we will ignore.
-			} else {
-				weights[key] = int(math.Max(float64(weights[key]), float64(value)))
-			}
+	// the first operand is A, whatever follows is B
+	weights := make(map[string]int)
+
+	for idx, operand := range operandWeights(edges) {
+		for key, value := range operand {
+			if existing, ok := weights[key]; ok {
+				weights[key] = int(math.Max(float64(existing), float64(value)))
+			} else if idx == 0 {
+				// This is the A operand. We take the max weight of all key
+				weights[key] = value
+			} // otherwise, the B operand requires the weight to be present in A. Otherwise, we will ignore.
 		}
 	}
 
 	node.weights = weights
 	return nil
+}
+
+// operandWeights groups the edges leaving an intersection or exclusion node by operand and returns, per operand in
+// source order, the max weight for every type any of its edges reaches. All direct edges belong to the one direct
+// assignment ([user, group#member] is one operand, a user of either type satisfies it), the tuple-to-userset edges of
+// one "relation from tupleset" (one per parent type) belong together, any other edge is an operand of its own.
+func operandWeights(edges []*WeightedAuthorizationModelEdge) []map[string]int {
+	operands := make([]map[string]int, 0, len(edges))
+	operandIndex := make(map[string]int)
+
+	for _, edge := range edges {
+		key := ""
+
+		switch edge.edgeType {
+		case DirectEdge:
+			key = "direct"
+		case TTUEdge:
+			relation := edge.to.uniqueLabel
+			if idx := strings.LastIndex(relation, "#"); idx != -1 {
+				relation = relation[idx+1:]
+			}
+
+			key = "ttu:" + edge.tuplesetRelation + ":" + relation
+		case RewriteEdge, ComputedEdge:
+			// every rewrite / computed edge is an operand
+		}
+
+		index, ok := operandIndex[key]
+		if key == "" || !ok {
+			index = len(operands)
+			operands = append(operands, make(map[string]int))
+
+			if key != "" {
+				operandIndex[key] = index
+			}
+		}
+
+		for weightKey, value := range edge.weights {
+			if existing, ok := operands[index][weightKey]; !ok || value > existing {
+				operands[index][weightKey] = value
+			}
+		}
+	}
+
+	return operands
 }
 
 // This strategy is used in AND operations and enforces that all the edges return the same type
@@ -583,19 +628,19 @@ func (wg *WeightedAuthorizationModelGraph) calculateNodeWeightWithEnforceTypeStr
 		return fmt.Errorf("%w: %s node does not have any terminal type to reach to", ErrInvalidModel, node.uniqueLabel)
 	}
 
-	for _, edge := range edges {
-		// for but not ensure that the first edge is the left edge
-		// the first time, take the weights of the edge
-		if len(weights) == 0 {
-			for key, value := range edge.weights {
+	for idx, operand := range operandWeights(edges) {
+		// the first operand seeds the weights
+		if idx == 0 {
+			for key, value := range operand {
 				weights[key] = value
 			}
+
 			continue
 		}
 
-		// for AndOperation, remove the key if it is not in the edge, not all edges return the same type
+		// for AndOperation, remove the key if it is not in the operand, not all operands return the same type
 		for key := range weights {
-			if value, ok := edge.weights[key]; !ok {
+			if value, ok := operand[key]; !ok {
 				delete(weights, key)
 			} else {
 				weights[key] = int(math.Max(float64(weights[key]), float64(value)))
